@@ -216,18 +216,21 @@ class Contract:
         self.requires = _fn(d.get('requires'))
         self.ensures = _fn(d.get('ensures'))
         self.result_is = _fn(d.get('result_is'))
+        self.effective = _fn(d.get('effective'))     # behaviour used at call sites when the contract has open findings (spec result or pinned deviation)
         self.raises = d.get('raises', {})            # exc class -> condition fn (must hold when raised)
         self.raises_iff = d.get('raises_iff', {})    # exc class -> condition fn (raised exactly when)
         self.pins = {k: _fn(v) for k, v in d.get('pins', {}).items()}
         self.init = _fn(d.get('init'))               # symbolic only: establishes derived fields of record parameters (representation invariant)
         self.call = _fn(d.get('call'))               # params -> dict of keyword arguments of the target
         self.build = _fn(d.get('build'))
+        self.perturb = _fn(d.get('perturb'))         # native: (params..., rng) in-place change of the receiver between an earlier call and the checked one
         self.sample = _fn(d.get('sample'))
         self.prepare = _fn(d.get('prepare'))         # native: concrete params -> dict of params replaced by real objects           # native: rng -> dict of concrete params (optional)             # native: concrete params -> (callable, args, kwargs)
         self.observe = _fn(d.get('observe'))         # native: extracts comparable state after call
         self.modifies = d.get('modifies', ())
         self.returns = d.get('returns')              # T for the result when applied at call sites
         self.assumed = d.get('assumed', False)       # contract is not verified (external / out of reach)
+        self.use_opaque = d.get('use_opaque', True)   # False: @opaque specification functions are interpreted transparently for this contract
         self.bounds = d.get('bounds', {})
         self.native_only = d.get('native_only', False)   # no VCs: only native contract evaluation (bounded stand-in)
         self.bounded = d.get('bounded')              # text: the contract only covers a stated bounded shape (stand-in, not a proof)
